@@ -615,9 +615,10 @@ def cases_for(prop, tier, seed, pools, toks, ck):
             more_toks(ck, toks, [(lang, t) for t in longs], "pre_c03")
             cases += gen.gen_prefix_cases(lang, rnd, longs, toks, len(longs))
         cases += gen.gen_huge_store_cases("C03", rnd.choice(L), rnd, pools["en"], heavy(1, 6))
+        cases += gen.gen_long_lived_store_cases("C03", L[seed % len(L)], rnd)
     elif prop == "C04":
         for lang in L:
-            bw = gen.three_letter_words(lang, rnd, per(3, 40))
+            bw = gen.three_letter_words(lang, rnd, per(3, 40)) + gen.run_words(lang, rnd, per(3, 30))
             # titles of a dozen words (listings with the whole description in the title): far more grams than any record of
             # the bundled data set has
             for _k in range(heavy(2, 20)):
@@ -630,6 +631,19 @@ def cases_for(prop, tier, seed, pools, toks, ck):
             echo = gen.compound_echo_titles(rnd, pools[lang], per(8, 60))
             more_toks(ck, toks, [(lang, t) for t in echo], "pre_c13")
             cases += gen.gen_whole_pair_cases(lang, rnd, pools[lang], toks, per(60, 1500), extra=echo)
+            # titles of a dozen words (far more grams than any record of the bundled data set), in three arrangements: as drawn;
+            # between two words spelled with the last letters of the alphabet only (all their grams sort after everything
+            # else in the title); between two words spelled with the first letters only
+            longs = []
+            sl = sorted(gen.script_letters(lang))
+            for k in range(heavy(3, 12)):
+                ws = [w for w in " ".join(rnd.sample(pools[lang], 8)).split(" ") if w][:12]
+                if len(sl) >= 12 and k % 3:
+                    ab = sl[-6:] if k % 3 == 1 else sl[:6]
+                    ws = [gen.rand_word(rnd, ab, 5, 6)] + ws[:11] + [gen.rand_word(rnd, ab, 5, 6)]
+                longs.append(" ".join(ws)[:190].rstrip())
+            more_toks(ck, toks, [(lang, t) for t in longs], "pre_c13l")
+            cases += gen.gen_whole_pair_cases(lang, rnd, pools[lang], toks, 0, targets=longs)
     elif prop == "C14":
         for lang in L:
             cases += gen.gen_split_join_cases(lang, rnd, pools[lang], toks, per(20, 500))
@@ -662,6 +676,8 @@ def cases_for(prop, tier, seed, pools, toks, ck):
             cases += gen.gen_histories(prop, lang, rnd, pools[lang], toks, per(12, 400), length=per(14, 24))
             if prop == "C10":
                 cases += gen.gen_family_cases("C10", lang, rnd, per(3, 60))
+                if lang == L[seed % len(L)]:
+                    cases += gen.gen_long_lived_store_cases("C10", lang, rnd)
             if prop == "C12":
                 cases += gen.gen_symbol_query_cases("C12", lang, rnd, pools[lang])
         # the same statement through the top-level API (lib.rs), with a stand-alone store in lock-step
